@@ -11,6 +11,7 @@
  */
 #include "../engine/mc.h"
 #include <soundswallower/bin_mdef.h>
+#include <sys/stat.h>
 #include <soundswallower/configuration.h>
 #include <soundswallower/decoder.h>
 #include <soundswallower/dict.h>
@@ -27,8 +28,8 @@
 #define DATADIR "/repo/tests/data"
 #endif
 
-enum { F_JSGF, F_FSG, F_DICT, F_FDICT, F_JSON, F_CFGSET, F_ALIGN, F_ADDWORD, F_CMN, F_FSGDEC, F_JSGFDEC, NFORMATS };
-static const char *const FNAME[NFORMATS] = { "jsgf", "fsg", "dict", "fdict", "json", "cfgset", "align", "addword", "cmn", "fsgdec", "jsgfdec" };
+enum { F_JSGF, F_FSG, F_DICT, F_FDICT, F_JSON, F_CFGSET, F_ALIGN, F_ADDWORD, F_CMN, F_FSGDEC, F_JSGFDEC, F_JSGFIMP, NFORMATS };
+static const char *const FNAME[NFORMATS] = { "jsgf", "fsg", "dict", "fdict", "json", "cfgset", "align", "addword", "cmn", "fsgdec", "jsgfdec", "jsgfimp" };
 static int FORMAT;
 static logmath_t *lmath;
 static bin_mdef_t *mdef;
@@ -92,6 +93,60 @@ run_input(const unsigned char *data, size_t len)
             jsgf_grammar_free(j);
         }
         free(s);
+        break;
+    }
+    case F_JSGFIMP: {
+        /* grammar FILES that import each other: the input is <main.gram> 0x1e <sub.gram> [0x1e <other.gram>]; the files are written to a
+         * scratch directory of this process and main.gram is read with jsgf_parse_file (imports are resolved next to the importing file) */
+        static char dir[600];
+        static const char *const names[3] = { "main.gram", "sub.gram", "other.gram" };
+        char path[700];
+        size_t off = 0;
+        int k;
+        jsgf_t *j;
+        snprintf(dir, sizeof dir, "%s.imp.%d", getenv("MC_OUT") ? getenv("MC_OUT") : "/var/tmp/mc_parse", (int)getpid());
+        mkdir(dir, 0700);
+        for (k = 0; k < 3; k++) {
+            size_t e = off;
+            FILE *fp;
+            snprintf(path, sizeof path, "%s/%s", dir, names[k]);
+            unlink(path);
+            if (off > len)
+                continue; /* no such file */
+            while (e < len && data[e] != 0x1e)
+                e++;
+            fp = fopen(path, "wb");
+            fwrite(data + off, 1, e - off, fp);
+            fclose(fp);
+            off = e + 1;
+        }
+        snprintf(path, sizeof path, "%s/main.gram", dir);
+        j = jsgf_parse_file(path, NULL);
+        if (j) {
+            jsgf_rule_t *r = jsgf_get_public_rule(j);
+            jsgf_rule_iter_t *it;
+            for (it = jsgf_rule_iter(j); it; it = jsgf_rule_iter_next(it))
+                (void)jsgf_rule_name(jsgf_rule_iter_rule(it));
+            if (r) {
+                fsg_model_t *f = jsgf_build_fsg(j, r, lmath, 6.5f);
+                if (f) {
+                    int i;
+                    for (i = 0; i < fsg_model_n_state(f); i++) {
+                        fsg_arciter_t *a;
+                        for (a = fsg_model_arcs(f, i); a; a = fsg_arciter_next(a))
+                            (void)fsg_model_word_str(f, fsg_link_wid(fsg_arciter_get(a)));
+                    }
+                    fsg_model_free(f);
+                    got = 1;
+                }
+            }
+            jsgf_grammar_free(j);
+        }
+        for (k = 0; k < 3; k++) {
+            snprintf(path, sizeof path, "%s/%s", dir, names[k]);
+            unlink(path);
+        }
+        rmdir(dir);
         break;
     }
     case F_FSG: {
@@ -314,7 +369,7 @@ run_case(const unsigned char *data, size_t len, long long idx)
     mc_case_begin(idx, cd);
     a0 = MC_ALLOCATED();
     got = run_input(data, len);
-    if (FORMAT < F_ALIGN && MC_ALLOCATED() != a0) {
+    if ((FORMAT < F_ALIGN || FORMAT == F_JSGFIMP) && MC_ALLOCATED() != a0) {
         mc_viol("C10/leak", cd, "%ld bytes still allocated after the object (or the failure) was cleaned up", (long)(MC_ALLOCATED() - a0));
         return -1;
     }
@@ -360,6 +415,18 @@ setup_tokens(void)
         PREFIX[0] = "FSG_BEGIN g\nNUM_STATES 2\nSTART_STATE 0\nFINAL_STATE 1\n";
         PREFIX[1] = "FSG_BEGIN g\nN 2\nS 0\nF 1\nT 0 1 0.5 go\n";
         NPREFIX = 2;
+        break;
+    }
+    case F_JSGFIMP: {
+        /* the token sequence continues sub.gram (and may open other.gram with the 0x1e separator) */
+        static const char *const ji[] = { "import <main.s>;", "import <sub.x>;", "import <sub.*>;", "import <other.y>;", "import <nosuch.z>;", "import <x>;", "public <x> = a;",
+                                          "public <x> = a <s>;", "<x> = b;", "public <y> = <x> c;", "public <s> = d;", "(", ";", "\x1e", "#JSGF V1.0;", "grammar sub;", "grammar other;",
+                                          "grammar main;", "\xff" };
+        src = ji, n = sizeof ji / sizeof *ji;
+        PREFIX[0] = "#JSGF V1.0; grammar main; import <sub.x>; public <s> = go <x>;\x1e#JSGF V1.0; grammar sub; ";
+        PREFIX[1] = "#JSGF V1.0; grammar main; import <sub.*>; import <other.y>; public <s> = go <sub.x> | <y>;\x1e#JSGF V1.0; grammar sub; ";
+        PREFIX[2] = "#JSGF V1.0; grammar main; import <sub.x>; import <sub.x>; public <s> = <x>;\x1e";
+        NPREFIX = 3;
         break;
     }
     case F_JSGF:
@@ -485,6 +552,11 @@ setup_seeds(void)
         add_seed_file(DATADIR "/goforward.gram", 4096);
         add_seed_file(DATADIR "/pizza.gram", 4096);
         add_seed_text("#JSGF V1.0 UTF-8 en; grammar t; import <x.y>; public <s> = /2/ a {tag} | /0.5/ [ b ]* ( <t> | <NULL> )+ \"q r\"; <t> = c <t> | d; // end\n");
+        break;
+    case F_JSGFIMP:
+        add_seed_text("#JSGF V1.0; grammar main; import <sub.x>; import <other.*>; public <s> = go <x> | <other.y>;\x1e#JSGF V1.0; grammar sub; import <other.y>; public <x> = a <y> | b;"
+                      "\x1e#JSGF V1.0; grammar other; public <y> = c [ d ];");
+        add_seed_text("#JSGF V1.0; grammar main; import <sub.x>; public <s> = go <x>;\x1e#JSGF V1.0; grammar sub; import <main.s>; public <x> = a | b <s>;");
         break;
     case F_FSG:
         add_seed_file(DATADIR "/goforward.fsg", 4096);
@@ -694,7 +766,7 @@ main(int argc, char **argv)
             return 2;
         }
     }
-    if (FORMAT >= F_ALIGN) {
+    if (FORMAT >= F_ALIGN && FORMAT != F_JSGFIMP) {
         char dp[512];
         config_t *cfg = config_init(NULL);
         FILE *fp;
